@@ -22,11 +22,15 @@ Fold(s, ei, evs, i) ==
     ELSE IF ei < Len(s.evs) /\ s.evs[ei + 1] = <<e.a, e.b>> THEN Fold(s, ei + 1, evs, i + 1)
     ELSE [s |-> s, ei |-> ei, bad |-> "section-mismatch"]
 Judge(b) ==
-  LET f == Fold(InitLoad(b.file), 0, b.evs, 1) s == f.s IN
-  IF s.ood THEN "ood"
-  ELSE IF Done(s) /\ (s.out = "ok") # (b.ret = "ok") THEN "verdict-mismatch"
+  LET f == Fold(InitLoad(b.file), 0, b.evs, 1) s == f.s
+      \* the verdict does not depend on the delivery (MC_Load!Verdict): where the recorded events cannot be followed to the end,
+      \* the machine's verdict on the same bytes is still known and still compared
+      m == IF Done(s) /\ f.bad = "" THEN s ELSE Load(b.file, <<>>)
+  IN
+  IF m.ood THEN "ood"
+  ELSE IF (m.out = "ok") # (b.ret = "ok") THEN "verdict-mismatch"
   ELSE IF f.bad # "" THEN f.bad
-  ELSE IF ~Done(s) THEN (IF (Load(b.file, <<>>).out = "ok") # (b.ret = "ok") THEN "verdict-mismatch" ELSE "returned-early")
+  ELSE IF ~Done(s) THEN "returned-early"
   ELSE IF f.ei # Len(s.evs) THEN "section-event-missing"
   ELSE IF s.out # b.ret THEN "reason-mismatch"
   ELSE IF s.out = "ok" /\ EncodeProg([s.parts EXCEPT !.minor = 1]) # b.redump THEN "parts-mismatch"
